@@ -9,6 +9,7 @@ var TokenAlphabet = []string{
 	"<", ">", ">|", ">>", "<<", "<<-", "<&", ">&", "<>",
 	"\n",
 	`"x"`, `'y'`, `\z`, "$v", "${v:-w}", "$(c)", "`c`", "$((1))", "#c", `\`,
+	`""`, `"$v z"`,
 }
 
 // TokenStrings calls fn for every string of exactly n tokens; the tokens are
